@@ -293,13 +293,23 @@ where
             b_quant,
         )?;
         output.reshape(out_shape);
+        if b_is_vec {
+            output.remove_axis(output.ndim() - 1);
+        }
         return Ok(output);
     }
 
     // Early exit if the output is empty.
     if out_shape.iter().product::<usize>() == 0 {
         // Don't need to use the pool here since the buffer has zero size.
-        return Ok(Tensor::zeros(out_shape));
+        let mut output = Tensor::zeros(out_shape);
+        if a_is_vec {
+            output.remove_axis(output.ndim() - 2);
+        }
+        if b_is_vec {
+            output.remove_axis(output.ndim() - 1);
+        }
+        return Ok(output);
     }
 
     let a_broadcast_shape = [out_prefix.as_slice(), &[a_rows, a_cols]].concat();
